@@ -157,6 +157,10 @@ func symbols() *sl.Symbols {
 		sl.Op{Name: "upd2(n:{x})", Kind: "upd", Ids: []int{2}, Docs: []sl.Doc{{"n": sl.Doc{"x": int64(7)}, "tags": []string{}}}},
 		sl.Op{Name: "upd1(tags -> duplicates, same length)", Kind: "upd", Ids: []int{1}, Docs: []sl.Doc{{"tags": []string{"x", "x"}, "tagsi": []string{"x", "X"}}}},
 		sl.Op{Name: "upd2(tags reordered)", Kind: "upd", Ids: []int{2}, Docs: []sl.Doc{{"tags": []string{"Ab", "x"}, "tagsi": []string{"ab", "x"}}}},
+		// spellings that Unicode case folding identifies but lower-casing (the index's declared rule)
+		// keeps apart: capital / small / final sigma.  Point 3 moves between them.
+		sl.Op{Name: "upd3(si: ΟΔΟΣ)", Kind: "upd", Ids: []int{3}, Docs: []sl.Doc{{"si": "ΟΔΟΣ", "tagsi": []string{"ΟΔΟΣ"}}}},
+		sl.Op{Name: "upd3(si: οδος)", Kind: "upd", Ids: []int{3}, Docs: []sl.Doc{{"si": "οδος", "tagsi": []string{"οδος"}}}},
 		sl.Op{Name: "del1", Kind: "del", Ids: []int{1}},
 		sl.Op{Name: "del1,2", Kind: "del", Ids: []int{1, 2}},
 		sl.Op{Name: "ins1(empty strings)", Kind: "ins", Ids: []int{1}, Docs: []sl.Doc{{"s": "", "si": "", "tags": []string{""}, "a": int64(0)}}},
@@ -168,6 +172,8 @@ func batteryB() []models.Query {
 	var qs []models.Query
 	qs = append(qs, sl.StringLeaves("s", sv)...)
 	qs = append(qs, sl.StringLeaves("si", sv)...)
+	qs = append(qs, sl.StringLeaves("si", []string{"ΟΔΟΣ", "οδος", "οδοσ"})...)
+	qs = append(qs, sl.ArrayLeaves("tagsi", []string{"ΟΔΟΣ", "οδος"})...)
 	qs = append(qs, sl.StringLeaves("n.s", []string{"ab", "B"})...)
 	qs = append(qs, sl.IntLeaves("a", []int64{-1, 0, 1})...)
 	qs = append(qs, sl.IntLeaves("n.x", []int64{0, 1, 7})...)
@@ -227,7 +233,7 @@ func master(cfg *harness.Config, rep *harness.Report) {
 	if !cfg.Quick() {
 		depth = 8
 	}
-	hist := []string{"ins1(v0)", "ins2(v0)", "ins3(v1)", "upd1(v1)", "upd1,2(v2)", "upd1(v1),3(v0) swap", "upd1(remove)", "upd1(add v0)", "upd2(n:{x})", "upd1(tags -> duplicates, same length)", "upd2(tags reordered)", "del1", "del1,2", "ins1(empty strings)"}
+	hist := []string{"ins1(v0)", "ins2(v0)", "ins3(v1)", "upd1(v1)", "upd1,2(v2)", "upd1(v1),3(v0) swap", "upd1(remove)", "upd1(add v0)", "upd2(n:{x})", "upd1(tags -> duplicates, same length)", "upd2(tags reordered)", "upd3(si: ΟΔΟΣ)", "upd3(si: οδος)", "del1", "del1,2", "ins1(empty strings)"}
 	var specs []seqx.Spec
 	for _, be := range []string{"bbolt", "mem"} {
 		specs = append(specs,
